@@ -68,7 +68,8 @@ def genome_pipeline(ctx, replay, prop):
                 "genomes (XOR start genome, a hand-built genome with bias / unconnected sensor / disabled / recurrent / nil-trait "
                 "genes, random genomes) is evolved by duplicate+mutate, mate(+mutate), in-place mutation and generation boundaries; "
                 "every application is one event with projected operands before/after, registry and counters, validated line by "
-                "line by TLC against Genome.tla; " + RULES[prop][0])
+                "line by TLC against Genome.tla; (3) for C01 / C03 / C06 also the epoch traces of C02 (constructed populations "
+                "and every generation of real epochs under both executors, Trace_Epoch); " + RULES[prop][0])
     ctx.assumptions = ["start genomes: sensors first, consecutive trait ids, at least one gene (quantifier)",
                        "floats are interned: equal symbols <=> equal float64 bit patterns; averages are logged with the IEEE "
                        "expression (a+b)/2 the library uses",
@@ -118,6 +119,10 @@ def genome_pipeline(ctx, replay, prop):
                 if len(ctx.samples) >= 2:
                     break
     ctx.extra["scope"] = {"traces": len(results), "steps_per_segment": jobs[0][1] if jobs else 0, "segments": 3}
+    if prop in ("C01", "C03", "C06"):
+        # the population-level clauses of the same property: constructed populations and whole epochs (Trace_Epoch)
+        import pipe_epoch
+        pipe_epoch.epoch_traces(ctx, replay, prop)
 
 
 for _p in ("C01", "C03", "C04", "C05", "C06"):
